@@ -34,6 +34,8 @@ struct Pending {
 	fin: usize,
 	id: uuid::Uuid,
 	honest_reply: Slate,
+	/// what the initiator sent (carries the initiator's public data), for attacker-level replies
+	first: Option<Slate>,
 	/// facts fixed at initiation
 	amount: u64,
 	fee: u64,
@@ -110,6 +112,7 @@ fn make_pending(w: &mut World, rng: &mut Rng, flow: Flow, with_proof: bool) -> R
 				fin: 0,
 				id: s1.id,
 				honest_reply: s2,
+				first: Some(s1.clone()),
 				amount: ctx.amount,
 				fee: ctx.fee.map(|f| f.fee()).unwrap_or(0),
 				input_commits: commits_of(&kc0, &ctx.input_ids),
@@ -135,6 +138,7 @@ fn make_pending(w: &mut World, rng: &mut Rng, flow: Flow, with_proof: bool) -> R
 				fin: 1,
 				id: s1.id,
 				honest_reply: s2,
+				first: None,
 				amount,
 				fee: ctx.fee.map(|f| f.fee()).unwrap_or(0),
 				input_commits: commits_of(&kc0, &ctx.input_ids),
@@ -263,13 +267,25 @@ fn mutants(w: &World, p: &Pending, rng: &mut Rng, other_reply: Option<&Slate>, p
 		m("tx=none", &|s| s.tx = None);
 		// attacker-level: a recipient that re-signs consistently with its own choices
 		let kc = ExtKeychain::from_seed(&[0x66u8; 32], true).unwrap();
-		for (name, amt_delta, fee_delta, extra) in [("attacker: larger output, consistent signature", 1_000i64, 0i64, false), ("attacker: smaller output", -1_000, 0, false), ("attacker: signs a lower fee", 0, -1_000_000, false), ("attacker: extra output", 0, 0, true)].iter() {
+		for (name, amt_delta, fee_delta, extra, keep) in [
+			("attacker: larger output, consistent signature", 1_000i64, 0i64, false, false),
+			("attacker: smaller output", -1_000, 0, false, false),
+			("attacker: signs a lower fee", 0, -1_000_000, false, false),
+			("attacker: extra output", 0, 0, true, false),
+			("attacker: higher fee taken from the amount, fee and amount left in the reply", -7_000_000, 7_000_000, false, true),
+			("attacker: lower fee added to the amount, fee and amount left in the reply", 2_000_000, -2_000_000, false, true),
+			("attacker: higher fee taken from the amount, only the fee left in the reply", -7_000_000, 7_000_000, false, true),
+		]
+		.iter()
+		{
 			if p.flow == Flow::Invoice {
 				continue;
 			}
-			// start again from what the sender sent: S1 view = honest reply without the recipient's data
-			let mut s = r.clone();
-			s.participant_data.retain(|pd| pd.part_sig.is_none());
+			// start again from what the sender sent (it carries the sender's public nonce and excess)
+			let mut s = match &p.first {
+				Some(f) => f.clone(),
+				None => continue,
+			};
 			s.tx = Some(Slate::empty_transaction());
 			s.amount = (p.amount as i64 + amt_delta) as u64;
 			s.fee_fields = FeeFields::new(0, (p.fee as i64 + fee_delta) as u64).unwrap_or(FeeFields::zero());
@@ -294,8 +310,12 @@ fn mutants(w: &World, p: &Pending, rng: &mut Rng, other_reply: Option<&Slate>, p
 				continue;
 			}
 			let _ = s.remove_other_sigdata(&kc, &ctx.sec_nonce, &ctx.sec_key);
-			s.amount = 0;
-			s.fee_fields = FeeFields::zero();
+			if !*keep {
+				s.amount = 0;
+				s.fee_fields = FeeFields::zero();
+			} else if name.contains("only the fee") {
+				s.amount = 0;
+			}
 			s.state = SlateState::Standard2;
 			v.push((name.to_string(), s));
 		}
